@@ -190,5 +190,6 @@ func Caps(rt *rapid.T) refterm.Caps {
 	c.XTVersion = rapid.SampledFrom(xtversions).Draw(rt, "xtversion")
 	c.UserCursorStyle = rapid.IntRange(0, 6).Draw(rt, "usercursor")
 	c.AppID = rapid.SampledFrom([]string{"", "orig-app"}).Draw(rt, "appid")
+	c.DECRPMAbsent = rapid.SampledFrom([]int{0, 2, 1, 0}).Draw(rt, "decrpm-absent")
 	return c
 }
